@@ -39,12 +39,15 @@ struct TimerDump
 #include "orange/OrangeInput.hh"
 #include "orange/OrangeParams.hh"
 #include "orange/OrangeTrackView.hh"
+#include "orange/surf/SurfaceIO.hh"
+#include "orange/surf/VariantSurface.hh"
+#include <iostream>
 
 namespace verif
 {
 char const* const kPropertyId = "C09";
 char const* const kHarness = "c09_construct";
-size_t const kMaxBytes = 640;
+size_t const kMaxBytes = 800;
 char const* const kRule
     = "byte string -> random orangeinp model (proto tree depth<=2, <=2 "
       "daughters and <=5 first-match cutting objects per unit over all "
@@ -76,6 +79,41 @@ char const* prim_label(int k)
     return n[k];
 }
 
+void dump_input(OrangeInput const& inp)
+{
+    for (auto const& uv : inp.universes)
+    {
+        auto const* u = std::get_if<UnitInput>(&uv);
+        if (!u)
+            continue;
+        std::cerr << "UNIT " << u->label << "\n";
+        std::cerr.precision(17);
+        int i = 0;
+        for (auto const& sf : u->surfaces)
+        {
+            std::cerr << "  s" << i++ << ": ";
+            std::visit([](auto const& x) { std::cerr << x << "\n"; }, sf);
+        }
+        for (auto const& v : u->volumes)
+        {
+            std::cerr << "  vol " << v.label.name << " faces:";
+            for (auto f : v.faces)
+                std::cerr << f.get() << " ";
+            std::cerr << " logic:";
+            for (auto l : v.logic)
+            {
+                if (l == logic::land) std::cerr << "& ";
+                else if (l == logic::lor) std::cerr << "| ";
+                else if (l == logic::lnot) std::cerr << "~ ";
+                else if (l == logic::ltrue) std::cerr << "* ";
+                else std::cerr << l << " ";
+            }
+            std::cerr << " bbox:" << v.bbox.lower()[0] << "," << v.bbox.lower()[1] << "," << v.bbox.lower()[2] << " .. "
+                      << v.bbox.upper()[0] << "," << v.bbox.upper()[1] << "," << v.bbox.upper()[2] << "\n";
+        }
+    }
+}
+
 }  // namespace
 
 void setup()
@@ -83,8 +121,13 @@ void setup()
     gg::quiet_logs();
     g_limits.allow_parallelepiped_skew = true;
     g_limits.allow_small_ellipsoid = true;
+    g_limits.allow_flattened_twist = true;
+    g_limits.allow_merged_quadric_clone = true;
     if (char const* e = std::getenv("C09_NO_SKEW"))
         g_limits.allow_parallelepiped_skew = (e[0] == '0');
+    // C09_SAFE=1: the finding-free generator other harnesses use
+    if (std::getenv("C09_SAFE"))
+        g_limits = gg::Limits{};
     g_dump = std::getenv("C09_DUMP") != nullptr;
 }
 
@@ -101,6 +144,11 @@ Verdict run_case(Choices& c, CaseLog& log)
     {
         geo = std::make_unique<gg::GenGeo>(gg::generate(c, log, g_limits));
     }
+    catch (gg::Excluded const& e)
+    {
+        log.label("excluded-known-class");
+        return Verdict::rejected;
+    }
     catch (RuntimeError const& e)
     {
         log.label("rejected:construct");
@@ -115,6 +163,8 @@ Verdict run_case(Choices& c, CaseLog& log)
     try
     {
         OrangeInput inp = gg::build_input(*geo);
+        if (g_dump)
+            dump_input(inp);
         TICK(1)
         params = std::make_unique<OrangeParams>(std::move(inp));
     }
@@ -149,6 +199,8 @@ Verdict run_case(Choices& c, CaseLog& log)
     if (f.n_oriented_prism) log.label("prism:oriented");
     if (f.n_skew) log.label("para:skewed");
     if (f.n_small_ell) log.label("ellipsoid:small-coefficients");
+    if (f.n_flat_twist) log.label("genprism:flattened-twist");
+    if (f.n_merged_gq) log.label("cyl:merged-quadric-clone");
     if (f.n_excluded_f11) log.label("excluded:F11-ellipsoid-crash");
     if (f.n_explicit) log.label("unit:explicit-boundary");
     if (f.n_background) log.label("unit:background");
@@ -171,7 +223,9 @@ Verdict run_case(Choices& c, CaseLog& log)
                        wc.z + H * rng.u(-1, 1)});
     size_t n_uniform = pts.size();
     auto sp = gg::surface_points(*geo, rng, 2, 60);
-    static double const offs[] = {5, -5, 30, -30, 1000, -1000};
+    // (not exactly the planting multiples {2, 10, 1000}: a probe must not
+    // land exactly on the face of a planted neighbour)
+    static double const offs[] = {5, -5, 30.7, -30.7, 1013, -1013};
     for (auto const& s : sp)
         for (double k : offs)
         {
@@ -230,15 +284,20 @@ Verdict run_case(Choices& c, CaseLog& log)
                    : i < n_uniform + n_face ? "face-normal" : "daughter")
                << ": runtime volume '" << got << "' but the solids' definition "
                << "gives '" << want << "' (smallest |margin| on the way = "
-               << double(ex.margin) << " x 4 tol, level " << ex.depth << ")";
+               << double(ex.margin) << " x 4 tol, level " << ex.depth
+               << "); margins in tol:" << gg::explain(*geo, pos[0], pos[1], pos[2]);
             log.d("probe_index", i);
             if (g_dump)
                 std::fprintf(stderr, "%s\n%s\n", os.str().c_str(),
                              geo->desc.c_str());
-            if (ex.f10)
+            if (ex.known & gg::KF10)
                 return log.fail(os.str(), "F10-parallelepiped-bbox");
-            if (ex.f11)
-                return log.fail(os.str(), "F11-ellipsoid-unnormalised-quadric");
+            if (ex.known & gg::KF11)
+                return log.fail(os.str(), "F30-ellipsoid-unnormalised-quadric");
+            if (ex.known & gg::KF13)
+                return log.fail(os.str(), "F32-quadric-softequal-coefficients");
+            if (ex.known & gg::KF12)
+                return log.fail(os.str(), "F31-genprism-small-twist-flattened");
             return log.fail(os.str());
         }
     }
